@@ -242,12 +242,14 @@ RECIPES = {
         monitors={"C11"},
         mc=[MC_READER],
         runs=[dict(cmd="fault", gen="small:16,gc-heavy:10,big:4,many-queues:3,aim-gc:30,aim-roll:6", policy="always_flush",
-                   opts={"gc-images": True}, opts_thorough={"gc-images": True, "all-kinds": True, "max-gc-images": "20"},
+                   opts={"gc-images": True, "damaged-images": True},
+                   opts_thorough={"gc-images": True, "all-kinds": True, "max-gc-images": "20", "damaged-images": True, "max-damaged-images": "8"},
                    thorough_factor=6)],
         rule="closed images spanning 1-4 WAL files x every listing / open / read / seek call recovery makes on them (counted "
              "by a fault-free run) x {transient, persistent} x error kinds, plus process-crash images taken before each "
              "unlink of a GC pass (recovery repeats the pass and may have to open or create the next file) x every "
-             "open-or-create call; open must return Err(IoError) within the deadline; non-trivial = injected faults that struck",
+             "open-or-create call, plus images with a block the reader gives up on (invalid frame type at a block start: the "
+             "next block is loaded on the skip-a-corrupted-block path) x every open / read call; open must return Err(IoError) within the deadline; non-trivial = injected faults that struck",
         nontrivial_stat="fault_struck",
     ),
     "C17": dict(
